@@ -307,6 +307,34 @@ func init() {
 		fmt.Fprintf(&e.out, "def updatePod_allocSources : List String := %s\n", lst(sources("nodeDeviceCache", "updatePod")))
 		fmt.Fprintf(&e.out, "def deletePod_allocSources : List String := %s\n", lst(sources("nodeDeviceCache", "deletePod")))
 
+		// updateCacheUsed calls as (object the allocation variable was parsed from, pod argument, add?)
+		shapes := func(recv, name string) string {
+			src := map[string]string{}
+			for _, s := range sources(recv, name) {
+				parts := strings.SplitN(s, " <- ", 2)
+				src[parts[0]] = strings.SplitN(parts[1], ".", 2)[0]
+			}
+			var out []string
+			fd := e.funcDecl(d, recv, name)
+			if fd == nil {
+				return "[]"
+			}
+			ast.Inspect(fd.Body, func(n ast.Node) bool {
+				if c, ok := n.(*ast.CallExpr); ok && selName(c.Fun) == "updateCacheUsed" && len(c.Args) == 3 {
+					v := types.ExprString(c.Args[0])
+					o, ok := src[v]
+					if !ok {
+						o = "?" + v
+					}
+					out = append(out, fmt.Sprintf("(%s, %s, %v)", leanStr(o), leanStr(types.ExprString(c.Args[1])), types.ExprString(c.Args[2]) == "true"))
+				}
+				return true
+			})
+			return "[" + strings.Join(out, ", ") + "]"
+		}
+		fmt.Fprintf(&e.out, "def updatePod_shapes : List (String × String × Bool) := %s\n", shapes("nodeDeviceCache", "updatePod"))
+		fmt.Fprintf(&e.out, "def deletePod_shapes : List (String × String × Bool) := %s\n", shapes("nodeDeviceCache", "deletePod"))
+
 		// the guard of the release half of updatePod
 		relGuard := ""
 		if fd := e.funcDecl(d, "nodeDeviceCache", "updatePod"); fd != nil {
